@@ -246,6 +246,8 @@ where
             // record scalar values from most recent iteration.
             // This captures μ at iteration zero.
             self.info.save_scalars(μ, α, σ, iter);
+            #[cfg(clarabel_verif)]
+            crate::verif_hooks::trace::observe(crate::verif_hooks::trace::Event::Head{iter, alpha: crate::verif_hooks::trace::f(α), sigma: crate::verif_hooks::trace::f(σ), mu: crate::verif_hooks::trace::f(μ)});
 
             // convergence check and printing
             // --------------
@@ -259,6 +261,8 @@ where
             }}
 
             let isdone = self.info.check_termination(&self.residuals, &self.settings, iter);
+            #[cfg(clarabel_verif)]
+            crate::verif_hooks::trace::observe(crate::verif_hooks::trace::Event::Term{done: isdone, status: self.info.get_status() as u32});
 
             // check for termination due to slow progress and update strategy
             if isdone{
@@ -275,6 +279,8 @@ where
             timeit!{timers => "scale cones"; {
                 is_scaling_success = self.variables.scale_cones(&mut self.cones,μ,scaling);
             }}
+            #[cfg(clarabel_verif)]
+            crate::verif_hooks::trace::observe(crate::verif_hooks::trace::Event::Scale{ok: is_scaling_success, scaling: scaling as u32});
             // check whether variables are interior points
             match self.strategy_checkpoint_is_scaling_success(is_scaling_success,scaling){
                 StrategyCheckpoint::Fail => {break}
@@ -285,6 +291,8 @@ where
             //increment counter here because we only count
             //iterations that produce a KKT update
             iter += 1;
+            #[cfg(clarabel_verif)]
+            crate::verif_hooks::trace::observe(crate::verif_hooks::trace::Event::IterInc{iter});
 
             // Update the KKT system and the constant parts of its solution.
             // Keep track of the success of each step that calls KKT
@@ -295,6 +303,8 @@ where
             timeit!{timers => "kkt update"; {
                 is_kkt_solve_success = self.kktsystem.update(&self.data, &self.cones, &self.settings);
             }} // end "kkt update" timer
+            #[cfg(clarabel_verif)]
+            crate::verif_hooks::trace::observe(crate::verif_hooks::trace::Event::Kkt{ok: is_kkt_solve_success});
 
             // calculate the affine step
             // --------------
@@ -313,6 +323,8 @@ where
                     &self.settings,
                 );
             }}  //end "kkt solve affine" timer
+            #[cfg(clarabel_verif)]
+            crate::verif_hooks::trace::observe(crate::verif_hooks::trace::Event::Aff{ok: is_kkt_solve_success});
 
             // combined step only on affine step success
             if is_kkt_solve_success {
@@ -321,6 +333,8 @@ where
                 // --------------
                 α = self.get_step_length(StepDirection::Affine, scaling);
                 σ = self.centering_parameter(α);
+                #[cfg(clarabel_verif)]
+                crate::verif_hooks::trace::observe(crate::verif_hooks::trace::Event::AlphaAff{alpha: crate::verif_hooks::trace::f(α), sigma: crate::verif_hooks::trace::f(σ)});
 
                 // make a reduced Mehrotra correction in the first iteration
                 // to accommodate badly centred starting points
@@ -350,6 +364,8 @@ where
                         &self.settings,
                     );
                 }} //end "kkt solve"
+                #[cfg(clarabel_verif)]
+                crate::verif_hooks::trace::observe(crate::verif_hooks::trace::Event::Comb{ok: is_kkt_solve_success});
             }
 
             // check for numerical failure and update strategy
@@ -363,6 +379,8 @@ where
             // compute final step length and update the current iterate
             // --------------
             α = self.get_step_length(StepDirection::Combined,scaling);
+            #[cfg(clarabel_verif)]
+            crate::verif_hooks::trace::observe(crate::verif_hooks::trace::Event::Alpha{alpha: crate::verif_hooks::trace::f(α)});
 
             // check for undersized step and update strategy
             match self.strategy_checkpoint_small_step(α, scaling) {
@@ -375,6 +393,8 @@ where
             self.info.save_prev_iterate(&self.variables,&mut self.prev_vars);
 
             self.variables.add_step(&self.step_lhs, α);
+            #[cfg(clarabel_verif)]
+            crate::verif_hooks::trace::observe(crate::verif_hooks::trace::Event::AddStep{alpha: crate::verif_hooks::trace::f(α)});
 
         } //end loop
         // ----------
@@ -384,11 +404,16 @@ where
 
         }} // end "solve" timer
 
+        #[cfg(clarabel_verif)]
+        crate::verif_hooks::trace::observe(crate::verif_hooks::trace::Event::End{alpha: crate::verif_hooks::trace::f(α), iter, status: self.info.get_status() as u32});
+
         // Check we if actually took a final step.  If not, we need
         // to recapture the scalars and print one last line
         if α == T::zero() {
             self.info.save_scalars(μ, α, σ, iter);
             notimeit! {timers; {self.info.print_status(&self.settings).unwrap();}}
+            #[cfg(clarabel_verif)]
+            crate::verif_hooks::trace::observe(crate::verif_hooks::trace::Event::ExtraLine{iter});
         }
 
         timeit! {timers => "post-process"; {
@@ -550,6 +575,8 @@ mod internal {
                     output = StrategyCheckpoint::Fail;
                 }
             }
+            #[cfg(clarabel_verif)]
+            crate::verif_hooks::trace::observe(crate::verif_hooks::trace::Event::Ck{kind: 0, code: verif_ck_code(&output)});
             output
         }
 
@@ -571,6 +598,8 @@ mod internal {
                 self.info.set_status(SolverStatus::NumericalError);
                 output = StrategyCheckpoint::Fail;
             }
+            #[cfg(clarabel_verif)]
+            crate::verif_hooks::trace::observe(crate::verif_hooks::trace::Event::Ck{kind: 1, code: verif_ck_code(&output)});
             output
         }
 
@@ -593,6 +622,8 @@ mod internal {
                 output = StrategyCheckpoint::NoUpdate;
             }
 
+            #[cfg(clarabel_verif)]
+            crate::verif_hooks::trace::observe(crate::verif_hooks::trace::Event::Ck{kind: 2, code: verif_ck_code(&output)});
             output
         }
 
@@ -610,3 +641,14 @@ mod internal {
         }
     } // end trait impl
 } //end internals module
+
+/// verification hook: numeric code of a checkpoint result (recording only)
+#[cfg(clarabel_verif)]
+fn verif_ck_code(c: &StrategyCheckpoint) -> u32 {
+    match c {
+        StrategyCheckpoint::NoUpdate => 0,
+        StrategyCheckpoint::Update(ScalingStrategy::Dual) => 1,
+        StrategyCheckpoint::Fail => 2,
+        StrategyCheckpoint::Update(ScalingStrategy::PrimalDual) => 3,
+    }
+}
